@@ -12,7 +12,7 @@ PROP = "C15"
 
 
 def _validate(trace):
-    r = common.tlc("concurrency", "TraceLimiter", cfg="TraceLimiter.cfg", workers=1, timeout=600, env_extra={"TRACE": trace}, xss="1g", xmx="4g")
+    r = common.tlc("concurrency", "TraceLimiter", cfg="TraceLimiter.cfg", workers=1, timeout=900, env_extra={"TRACE": trace}, xss="1g", xmx="4g")
     m = re.search(r'<<\s*"VERDICT",\s*"([^"]*)",\s*(\d+),\s*(\d+),\s*(TRUE|FALSE)\s*>>', r.out)
     if not m:
         raise common.ToolError("TraceLimiter produced no verdict:\n" + r.out[-1500:])
